@@ -34,6 +34,10 @@ def check(repo, col, tier):
     _closures(repo, col)
     _getattr(repo, col)
     _share(repo, col)
+    col.rule("R-C18-memo", "no result is memoised per object identity (lru_cache / cached_property / jit with a static module argument)", 20)
+    _memo(repo, col)
+    col.rule("R-C18-tracer", "what integrate stores on the module is computed outside of tracing (no leaked tracer)", 2)
+    _tracer(repo, col)
 
 
 def _self(t: T) -> bool:
@@ -330,6 +334,111 @@ def _getattr(repo, col):
             if isinstance(n, ast.Attribute) and isinstance(n.value, ast.Name) and n.value.id == "self":
                 touched.append(unparse(n))
     col.check(not touched, R, fi, "no attribute of self is read before the dunder guard", "", f"reads {touched} before the guard", node=fi.node)
+
+
+MODULE_PARAM_NAMES = ("self", "module", "net", "network", "cell", "view", "pointer", "branch", "comp")
+
+
+def _memo(repo, col, R="R-C18-memo"):
+    """A cache keyed on the identity of a module -- functools.lru_cache / cache on a function that receives the module,
+    cached_property, jax.jit with the module as a STATIC argument (the trace bakes the module's tables in and is looked up by
+    identity and argument shapes) -- is state that lives outside the instance: it is not carried by pickle / deepcopy, and it
+    goes stale when the module is edited.  The original then simulates from the stale entry while a copy recomputes it, so
+    a module and its copy are no longer interchangeable."""
+    CACHES = ("lru_cache", "cache", "cached_property", "memoize", "memoized")
+    n = 0
+    for fi in repo.all_functions():
+        if not fi.file.startswith("jaxley/"):
+            continue
+        node = fi.node
+        if not isinstance(node, (ast.FunctionDef, ast.AsyncFunctionDef)):
+            continue
+        a = node.args
+        names = [x.arg for x in a.posonlyargs + a.args]
+        takes_module = bool(fi.cls and any(b_.name == "Module" for b_ in repo.mro(fi.cls))) or \
+            any(nm in MODULE_PARAM_NAMES[1:] for nm in names)
+        if not takes_module:
+            continue
+        n += 1
+        bad = None
+        for d in node.decorator_list:
+            txt = unparse(d)
+            base = txt.split("(")[0].split(".")[-1]
+            if base in CACHES:
+                bad = (d, f"`@{txt}` memoises the result per argument identity")
+            # jit / partial(jit, static_argnums=...) with the module argument static
+            is_jit = base == "jit" or (base == "partial" and isinstance(d, ast.Call) and d.args and unparse(d.args[0]).split(".")[-1] == "jit")
+            if is_jit and isinstance(d, ast.Call):
+                for k in d.keywords:
+                    if k.arg in ("static_argnums", "static_argnames"):
+                        vals = [e_.value for e_ in (k.value.elts if isinstance(k.value, (ast.Tuple, ast.List)) else [k.value])
+                                if isinstance(e_, ast.Constant)]
+                        pos = [names.index(nm) for nm in names if nm in MODULE_PARAM_NAMES]
+                        if any((isinstance(v, int) and v in pos) or (isinstance(v, str) and v in MODULE_PARAM_NAMES) for v in vals):
+                            bad = (d, f"`@{txt}` compiles one trace per module IDENTITY with the module's tables baked in")
+        col.check(bad is None, R, fi, f"{fi.qual}: no cache keyed on a module", "plain function / method",
+                  f"{bad[1] if bad else ''}: the entry is not part of the pickled / deep-copied state and goes stale when the module is "
+                  f"edited (set_ncomp, connect, ...); the original keeps using it while a copy recomputes, so the two simulate differently",
+                  node=bad[0] if bad else node)
+    if n < 20:
+        raise AnalysisError(f"only {n} functions that receive a module were scanned for identity-keyed caches")
+
+
+def _tracer(repo, col, R="R-C18-tracer"):
+    """`integrate` is routinely wrapped in jax.jit / grad / vmap.  Whatever it stores ON THE MODULE while it is being traced
+    (the caches rebuilt by to_jax) must be a concrete array: a value produced by a jax operation during tracing is a tracer,
+    it outlives the trace, and the module can then neither be pickled nor deep-copied (ConcretizationTypeError).  Every
+    store into the module on the integrate path whose value is computed with jax must therefore sit inside
+    `with jax.ensure_compile_time_eval():`."""
+    from sa.effects import Effects
+    E = Effects(repo)
+    ig = repo.func("jaxley/integrate.py", "integrate")
+    effs = [e for e in E.summary(ig) if e.root == "module"]
+    if not effs:
+        raise AnalysisError("integrate no longer stores anything on the module (effects analysis lost to_jax?)")
+
+    def enclosing_cte(fi, node):
+        """is `node` lexically inside `with ...ensure_compile_time_eval():` in fi?"""
+        found = [False]
+
+        def rec(n, inside):
+            if n is node and inside:
+                found[0] = True
+            for ch in ast.iter_child_nodes(n):
+                ins = inside
+                if isinstance(n, (ast.With, ast.AsyncWith)) and ch in n.body:
+                    ins = inside or any(unparse(i.context_expr).replace("jax.", "").startswith("ensure_compile_time_eval(") for i in n.items)
+                rec(ch, ins)
+        rec(fi.node, False)
+        return found[0]
+
+    seen = set()
+    n = 0
+    for e in effs:
+        st = e.node
+        if not isinstance(st, ast.stmt):
+            # the effect carries the target expression: take the statement that assigns to it
+            st = next((a_ for a_ in ast.walk(e.fi.node) if isinstance(a_, (ast.Assign, ast.AugAssign, ast.AnnAssign)) and
+                       any(t_ is e.node for t_ in (a_.targets if isinstance(a_, ast.Assign) else [a_.target]))), st)
+        k = (e.fi.qual, getattr(st, "lineno", 0))
+        if k in seen:
+            continue
+        seen.add(k)
+        val = getattr(st, "value", None)
+        if val is None:
+            continue
+        jcalls = [c for c in ast.walk(val) if isinstance(c, ast.Call) and isinstance(c.func, ast.Attribute) and
+                  unparse(c.func).split(".")[0] in ("jnp", "jax", "lax")]
+        if not jcalls:
+            continue
+        n += 1
+        col.check(enclosing_cte(e.fi, st), R, e.fi, f"{e.fi.qual}: `{unparse(st)[:60]}` stores a concrete array on the module",
+                  "inside `with ensure_compile_time_eval()`",
+                  f"`{unparse(st)[:80]}` computes the stored value with jax ({unparse(jcalls[0].func)}) outside "
+                  f"`ensure_compile_time_eval()`: when integrate runs under jax.jit the value is a tracer that stays on the module, and "
+                  f"pickle.dumps(module) / copy.deepcopy(module) raise afterwards", node=st)
+    if n < 2:
+        raise AnalysisError(f"only {n} jax-computed stores on the module found on the integrate path")
 
 
 def _share(repo, col):
